@@ -91,6 +91,7 @@ type parseSetup struct {
 	install bool // install through plugins
 	rebuild int  // number of parsers built (and run) from the same builder before the one that is observed
 	nested  string // a snippet that a statement interceptor parses with a second parser built from the same builder, mid-parse
+	queryAt func(token.Type) bool // nil: the observers query the context at every step; else only at these current tokens
 }
 
 type parseOutcome struct {
@@ -162,7 +163,9 @@ func runParse(su parseSetup, src string) parseOutcome {
 					_, _ = inner.ParseProgram()
 					inNested = false
 				}
-				out.trace = append(out.trace, eventStr("S", id, p))
+				if su.queryAt == nil || su.queryAt(p.CurrentToken.Type) {
+					out.trace = append(out.trace, eventStr("S", id, p))
+				}
 				return next()
 			})
 		}
@@ -175,7 +178,9 @@ func runParse(su parseSetup, src string) parseOutcome {
 				if inNested {
 					return next()
 				}
-				out.trace = append(out.trace, eventStr("E", id, p))
+				if su.queryAt == nil || su.queryAt(p.CurrentToken.Type) {
+					out.trace = append(out.trace, eventStr("E", id, p))
+				}
 				if re {
 					left := p.ParsePrefixExpression()
 					return p.ParseRemainingExpression(left)
@@ -249,10 +254,36 @@ func doParse(flags, tokI, stmtI, exprI, ops, src string) string {
 
 func compilerOf(cfg string) *compiler.Compiler {
 	f := strings.Split(cfg, ":")
+	return compilerOfOrder(cfg, len(f) == 3 && (len(unhex(f[1]))+len(f[2]))%2 == 0)
+}
+
+func compilerSemiFirst(cfg string) bool {
+	f := strings.Split(cfg, ":")
+	return len(f) == 3 && (len(unhex(f[1]))+len(f[2]))%2 == 0
+}
+
+func compilerOfOrder(cfg string, semiFirst bool) *compiler.Compiler {
+	f := strings.Split(cfg, ":")
 	c := compiler.New()
 	if len(f) == 3 {
 		indent := unhex(f[1])
-		c = c.WithPrettyPrint(func(o *compiler.PrettyPrintOptions) { o.IndentString = indent }, compiler.WithSemi(f[2] == "1"))
+		// the options are given through the public option functions where one exists for this indent unit, and in
+		// either order (the order is a function of the configuration, so a replay makes the same calls)
+		var ind compiler.PrettyPrintOption
+		switch {
+		case indent == "\t":
+			ind = compiler.WithTabs()
+		case strings.Trim(indent, " ") == "":
+			ind = compiler.WithSpaces(len(indent))
+		default:
+			ind = func(o *compiler.PrettyPrintOptions) { o.IndentString = indent }
+		}
+		semi := compiler.WithSemi(f[2] == "1")
+		if semiFirst {
+			c = c.WithPrettyPrint(semi, ind)
+		} else {
+			c = c.WithPrettyPrint(ind, semi)
+		}
 	}
 	if strings.Contains(f[0], "m") {
 		c = c.WithSourceMap()
@@ -262,6 +293,12 @@ func compilerOf(cfg string) *compiler.Compiler {
 
 func compileStr(cfg string, prog *ast.Program) string {
 	res := compilerOf(cfg).Compile(prog)
+	if strings.Count(cfg, ":") == 2 {
+		// the pretty-printing options are independent settings: giving them in the other order is the same configuration
+		if other := compilerOfOrder(cfg, !compilerSemiFirst(cfg)).Compile(prog); other.Code != res.Code {
+			return "code=" + hexOf(res.Code) + ";option-order-changes-output=" + hexOf(other.Code)
+		}
+	}
 	if res.SourceMap == nil {
 		return "code=" + hexOf(res.Code)
 	}
@@ -303,6 +340,10 @@ func runSmap(ops []string) *sourcemap.SourceMap {
 			m.AdvanceString(unhex(f[1]))
 		case "l":
 			m.AdvanceLine()
+		case "q":
+			// an intermediate snapshot: asking for the map must not change what is recorded
+			// (not an operation of the model, whose map is a function of the recorder's state)
+			_ = m.SourceMap()
 		}
 	}
 	return m.SourceMap()
@@ -319,7 +360,9 @@ func doSmap(ops []string) string {
 
 // ---------- BUILD ----------
 
-func doBuild(ops []string) string {
+func doBuild(ops []string) string { return strings.Join(doBuildOuts(ops), " ") }
+
+func doBuildOuts(ops []string) []string {
 	lb := lexer.NewBuilder()
 	pb := parser.NewBuilder(lb)
 	dyn := map[string]token.Type{}
@@ -353,6 +396,13 @@ func doBuild(ops []string) string {
 			outs = append(outs, okErr(pb.RegisterInfixOperator(token.Type(atoi(f[1])), atoi(f[2]), genericInfix)))
 		case "S":
 			outs = append(outs, okErr(pb.RegisterPostfixOperator(token.Type(atoi(f[1])), genericPostfix)))
+		case "M":
+			if f[1] == "t" {
+				pb.WithTolerantMode(f[2] == "1")
+			} else {
+				pb.WithSmartSemicolon(f[2] == "1")
+			}
+			outs = append(outs, "ok")
 		case "B":
 			p := pb.Build(unhex(f[1]))
 			prog, _ := p.ParseProgram()
@@ -365,7 +415,7 @@ func doBuild(ops []string) string {
 			outs = append(outs, "badop")
 		}
 	}
-	return strings.Join(outs, " ")
+	return outs
 }
 
 // ---------- dispatch ----------
